@@ -40,6 +40,11 @@ def configs(tier):
         out.append(dict(group="invalid", prog=prog))
     for nA in (2, 3):
         out.append(dict(group="callmask", nA=nA))
+    # call-exact (real exact code, with and without --prior-frequencies) and call-pedigree: same masking clauses at record level
+    # (drivers shared with C07)
+    for nA in (2, 3):
+        out.append(dict(group="exact-line", nA=nA, report=2))
+        out.append(dict(group="ped-line", nA=nA, report=3))
     return out
 
 
@@ -53,7 +58,18 @@ def run_config(c, col):
     E.cfg.concrete_ints = True
     prof = E.Profile()
     with prof:
-        globals()["_run_" + c["group"]](c, col)
+        if c["group"] in ("exact-line", "ped-line"):
+            from checks import c07
+            import warnings
+
+            warnings.simplefilter("ignore")
+            E.cfg.concrete_floats = True
+            try:
+                (c07._run_exact_line if c["group"] == "exact-line" else c07._run_ped_line)(c, col)
+            finally:
+                E.cfg.concrete_floats = False
+        else:
+            globals()["_run_" + c["group"]](c, col)
     col.functions |= set(prof.names())
 
 
@@ -497,6 +513,10 @@ def replay(v):
     m = v.get("model") or {}
     w = v.get("witness") or {}
     g = c["group"]
+    if g in ("exact-line", "ped-line"):
+        from checks import c07
+
+        return c07.replay(v)
     if g == "regex":
         return _replay_regex(v)
     if g in ("freq", "filter"):
